@@ -6,7 +6,7 @@ import os
 import subprocess
 import sys
 
-REPO = '/repo'
+REPO = os.environ.get('SEED_REPO', '/repo')      # a scratch clone of /repo: keeps a long sweep off /repo itself
 VERIF = os.path.dirname(os.path.dirname(os.path.abspath(__file__)))
 
 
@@ -40,7 +40,7 @@ def main():
             d = sh('PYTHONPATH=%s:%s/tools/lib /venv/bin/python %s' % (REPO, VERIF, demo))
             print('demo on mutated tree: rc=%d' % d.returncode)
         for p in props:
-            c = sh('cd %s && /venv/bin/python -m harness.check %s --tier %s' % (VERIF, p, tier))
+            c = sh('cd %s && T4GC_REPO=%s /venv/bin/python -m harness.check %s --tier %s' % (VERIF, REPO, p, tier))
             tail = [l for l in c.stdout.splitlines() if l.startswith(('VIOLATION', 'KNOWN', '# C', '# DIS', '# INFRA'))]
             print('%s rc=%d\n  %s' % (p, c.returncode, '\n  '.join(tail[-40:])))
             import glob, json
